@@ -32,6 +32,130 @@ pub struct Case {
     pub down_window: bool,
     pub writes3: Vec<W>,
     pub threshold: u8,
+    /// large-snapshot class (0 = off): `bulk` configs of about `bulk_pad` bytes are written before the leader's one
+    /// compaction (threshold = everything written so far + 40), then `bulk_updates` of them are rewritten behind
+    /// the snapshot, then the follower joins: it installs a snapshot of several MB and right behind it receives the
+    /// log entries that rewrite keys contained in that snapshot
+    #[serde(default)]
+    pub bulk: u16,
+    #[serde(default)]
+    pub bulk_pad: u16,
+    #[serde(default)]
+    pub bulk_updates: u16,
+}
+
+pub fn bulk_case_strategy() -> impl Strategy<Value = Case> {
+    (prop::collection::vec(w_strategy(), 5..40), 1000u16..4000, 1200u16..2400, 200u16..1500, prop::collection::vec(w_strategy(), 0..12)).prop_map(|(writes1, bulk, bulk_pad, bulk_updates, writes3)| Case {
+        writes1,
+        writes2: vec![],
+        early: false,
+        down_window: false,
+        writes3,
+        threshold: 0,
+        bulk,
+        bulk_pad,
+        bulk_updates,
+    })
+}
+
+fn bulk_threshold(case: &Case) -> u32 {
+    case.bulk as u32 + case.writes1.len() as u32 + 40
+}
+
+fn bulk_content(i: u32, version: u8, pad: u16) -> String {
+    let mut s = format!("v{}-of-bulk-{:05}\n", version, i);
+    while s.len() < pad as usize {
+        s.push_str("0123456789abcdefghijklmnopqrstuvwxyz-padding-line\n");
+    }
+    s
+}
+
+fn leader_has_snapshot_file(c: &Cluster) -> bool {
+    fn walk(d: &Path, depth: u8) -> bool {
+        if let Ok(rd) = std::fs::read_dir(d) {
+            for e in rd.filter_map(|e| e.ok()) {
+                let p = e.path();
+                if p.is_dir() {
+                    if depth < 3 && walk(&p, depth + 1) {
+                        return true;
+                    }
+                } else if e.file_name().to_string_lossy().starts_with("snapshot_") {
+                    return true;
+                }
+            }
+        }
+        false
+    }
+    walk(&c.nodes[0].dir, 0)
+}
+
+/// the bulk phase on the leader: see `Case::bulk`
+fn bulk_phase(case: &Case, c: &Cluster, acked: &mut u64, labels: &mut BTreeSet<String>) -> Result<(), String> {
+    let t = bulk_threshold(case) as u64;
+    for i in 0..case.bulk as u32 {
+        // (a refused publish is not acknowledged and not a matter of C08: the key is then absent on both nodes)
+        match c.publish(0, "", "bulk", &format!("b{:05}", i), &bulk_content(i, 1, case.bulk_pad)) {
+            Ok(true) => *acked += 1,
+            Ok(false) => {
+                labels.insert("bulk_publish_refused".into());
+            }
+            Err(e) => return Err(format!("bulk publish #{}: {}", i, e)),
+        }
+    }
+    // filler writes up to the compaction threshold; slowly near it, so that the compaction the Raft core starts there
+    // does not run concurrently with applies (the recorded open finding)
+    let mut fillers = 0u32;
+    let t0 = std::time::Instant::now();
+    while !leader_has_snapshot_file(c) {
+        if fillers > 400 || t0.elapsed() > Duration::from_secs(90) {
+            return Err(format!("leader built no snapshot although {} entries above the threshold {} were written", fillers, t));
+        }
+        let applied = c.metrics(0).and_then(|m| m["last_applied"].as_u64()).unwrap_or(0);
+        if applied + 3 >= t {
+            std::thread::sleep(Duration::from_millis(400));
+            if leader_has_snapshot_file(c) {
+                break;
+            }
+        }
+        fillers += 1;
+        match c.publish(0, "", "bulk", "filler", &format!("filler-{}", fillers)) {
+            Ok(true) => *acked += 1,
+            Ok(false) => {
+                labels.insert("bulk_publish_refused".into());
+                std::thread::sleep(Duration::from_millis(100));
+            }
+            Err(e) => return Err(format!("filler publish: {}", e)),
+        }
+    }
+    // the compaction writes every record of the state; give it time to complete on its own
+    std::thread::sleep(Duration::from_millis(3000));
+    labels.insert("bulk_leader_snapshot_built".into());
+    // rewrite keys that are inside the snapshot; stay well below threshold / 2 so that the leader sends THAT snapshot
+    let m = (case.bulk_updates as u64).min(t / 2 - 30).min(case.bulk as u64) as u32;
+    for i in 0..m {
+        match c.publish(0, "", "bulk", &format!("b{:05}", i), &bulk_content(i, 2, case.bulk_pad)) {
+            Ok(true) => *acked += 1,
+            Ok(false) => {
+                labels.insert("bulk_publish_refused".into());
+            }
+            Err(e) => return Err(format!("bulk update #{}: {}", i, e)),
+        }
+    }
+    labels.insert(format!("bulk_snapshot_about_{}_MB", (case.bulk as u64 * case.bulk_pad as u64) / 1_000_000));
+    Ok(())
+}
+
+/// the bulk keys as a node serves them (md5 of the content; "-" = not found)
+fn served_bulk(c: &Cluster, node: usize, bulk: u16) -> Result<Value, String> {
+    let mut m = serde_json::Map::new();
+    for i in 0..bulk as u32 {
+        let k = format!("b{:05}", i);
+        let v = c.get(node, "", "bulk", &k).map_err(|e| format!("GET bulk/{} on node {}: {}", k, node + 1, e))?;
+        m.insert(k, Value::String(v.map(|s| s.lines().next().unwrap_or("").to_string()).unwrap_or_else(|| "-".into())));
+    }
+    let f = c.get(node, "", "bulk", "filler").map_err(|e| format!("GET bulk/filler on node {}: {}", node + 1, e))?;
+    m.insert("filler".into(), f.map(Value::String).unwrap_or(Value::Null));
+    Ok(Value::Object(m))
 }
 
 fn w_strategy() -> impl Strategy<Value = W> {
@@ -62,6 +186,9 @@ pub fn case_strategy() -> impl Strategy<Value = Case> {
             down_window,
             writes3,
             threshold,
+            bulk: 0,
+            bulk_pad: 0,
+            bulk_updates: 0,
         })
 }
 
@@ -202,7 +329,7 @@ pub fn run_case(case: &Case, work: &Path, seed: u64) -> CaseReport {
 pub fn run_case_variant(case: &Case, work: &Path, seed: u64, variant: Variant) -> CaseReport {
     let n = CASE_NO.fetch_add(1, Ordering::SeqCst);
     let mut env = BTreeMap::new();
-    env.insert("RNACOS_RAFT_SNAPSHOT_LOG_SIZE".to_string(), case.threshold.to_string());
+    env.insert("RNACOS_RAFT_SNAPSHOT_LOG_SIZE".to_string(), if case.bulk > 0 { bulk_threshold(case).to_string() } else { case.threshold.to_string() });
     env.insert("RUST_LOG".to_string(), std::env::var("RNV_NODE_LOG").unwrap_or_else(|_| "warn,rnacos::raft::filestore::core=info".to_string()));
     let mut c = match Cluster::new(work, &format!("c08-{}", n), 2, seed.wrapping_mul(1000).wrapping_add(n * 13 + std::process::id() as u64), env) {
         Ok(c) => c,
@@ -261,6 +388,18 @@ fn run_case_inner(case: &Case, c: &mut Cluster, variant: Variant) -> CaseReport 
     // from here on the system has accepted generated operations: no more discards
     if let Err(e) = apply_writes(c, 0, &case.writes1, &mut acked, pace) {
         return CaseReport::violation(labels.into_iter().collect(), true, e);
+    }
+    if case.bulk > 0 {
+        labels.insert("bulk_large_snapshot_class".into());
+        let acked_before = acked;
+        if let Err(e) = bulk_phase(case, c, &mut acked, &mut labels) {
+            if labels.contains("bulk_publish_refused") && acked - acked_before < case.bulk as u64 / 2 {
+                // the leader refuses writes (e.g. its apply actor died in the start-up race noted in DESIGN 8.4): there is
+                // no large state to install, nothing to judge
+                return discard(format!("leader refused the bulk writes: {}; leader log: {}", e, c.log_tail(0)));
+            }
+            return CaseReport::violation(labels.into_iter().collect(), true, e);
+        }
     }
     if case.early && case.down_window {
         c.kill(1);
@@ -328,6 +467,14 @@ fn run_case_inner(case: &Case, c: &mut Cluster, variant: Variant) -> CaseReport 
             format!("follower never caught up with the leader ({} acknowledged writes): {}; follower log: {}", acked, e, c.log_tail(1)),
         );
     }
+    let bulk = case.bulk;
+    let served = |c: &Cluster, node: usize| -> Result<Value, String> {
+        let mut v = served(c, node)?;
+        if bulk > 0 {
+            v["bulk"] = served_bulk(c, node, bulk)?;
+        }
+        Ok(v)
+    };
     let leader = match served(c, 0) {
         Ok(v) => v,
         Err(e) => return CaseReport::violation(labels.into_iter().collect(), true, e),
@@ -421,7 +568,7 @@ pub fn main(ctx: &Ctx) -> i32 {
     let work = work_dir(ctx);
     let fin = || Finish {
         level: "exploration",
-        rule: "schedules on real processes: a leader with snapshot threshold 10/20/35/60, generated write histories on the leader (config publish/remove over 24 keys, namespace add/update/remove; 35..165 writes in three batches), a follower that joins before the writes (optionally killed during the second batch) or only after them; after the quiescence rule (same leader everywhere, last_applied == leader's last log index) the follower's served data (GET of every key, user-created namespaces, raft members) must equal the leader's - again after the follower is killed and restarted. A failing schedule is re-run in its Sequential variant (follower never compacts its own log, 150 ms after every leader write): a failure that stays there, or that comes back when the schedule is simply run once more, is reported; one that disappears in both is the recorded (timing dependent) compaction-concurrent-with-apply finding. non-trivial = the follower really received an InstallSnapshot (its log shows create_snapshot); distinct = hash of the schedule".into(),
+        rule: "schedules on real processes: a leader with snapshot threshold 10/20/35/60, generated write histories on the leader (config publish/remove over 24 keys, namespace add/update/remove; 35..165 writes in three batches), a follower that joins before the writes (optionally killed during the second batch) or only after them; after the quiescence rule (same leader everywhere, last_applied == leader's last log index) the follower's served data (GET of every key, user-created namespaces, raft members) must equal the leader's - again after the follower is killed and restarted. A failing schedule is re-run in its Sequential variant (follower never compacts its own log, 150 ms after every leader write): a failure that stays there, or that comes back when the schedule is simply run once more, is reported; one that disappears in both is the recorded (timing dependent) compaction-concurrent-with-apply finding. LARGE-SNAPSHOT CLASS (label bulk_large_snapshot_class): 1000..4000 configs of 1.2..2.4 KB are written before the leader's single compaction (threshold just above them, approached slowly so that the compaction runs alone), 200..1500 of them are rewritten behind the snapshot, then the follower joins: it installs a snapshot of 1..10 MB and immediately receives the entries that rewrite keys of that snapshot; every bulk key is compared too. non-trivial = the follower really received an InstallSnapshot (its log shows create_snapshot); distinct = hash of the schedule".into(),
         assumptions: vec![
             "message schedules between the processes are sampled, not controlled".into(),
             "user rows are not written in this check (console login required); weak namespaces not compared".into(),
@@ -463,6 +610,15 @@ pub fn main(ctx: &Ctx) -> i32 {
     let n = ctx.tier.pick(48u32, 240u32);
     let w2 = work.clone();
     let fail = run_cases(ctx, &stats, (|| case_strategy().boxed()) as fn() -> _, n, 6, 12, move |c| run_case(c, &w2, seed));
+    // large-snapshot class (several MB installed, entries that rewrite snapshot keys right behind it)
+    let fail = match fail {
+        Some(f) => Some(f),
+        None => {
+            let n_bulk = ctx.tier.pick(4u32, 32u32);
+            let w3 = work.clone();
+            run_cases(ctx, &stats, (|| bulk_case_strategy().boxed()) as fn() -> _, n_bulk, 4, 6, move |c| run_case(c, &w3, seed))
+        }
+    };
     std::fs::remove_dir_all(&work).ok();
     std::thread::sleep(Duration::from_millis(50));
     finish(ctx, &stats, fin(), fail)
